@@ -1,7 +1,8 @@
 """U1 — encoder side: tonic/src/codec/encode.rs.
 Carries C01 (framing, schedule independence), C03 (wire conformance, single trailers), C06 (send limit, no collateral loss),
 C02 (status hand-off into trailers)."""
-from vxlib import Unit, Clause
+from vxlib import Unit, Clause, r20_let_intro
+from units import common
 
 E = 'tonic/src/codec/encode.rs'
 
@@ -131,6 +132,7 @@ pub struct EncodedBytesProj<'a, T, U: Stream> {
     pub error: &'a mut Option<Status>,
 }
 // The step relation of EncodedBytes::poll_next (one call), over the ghost log of the message source.
+#[verifier::opaque]
 pub open spec fn enc_step<T, U>(pre: EncodedBytes<T, U>, post: EncodedBytes<T, U>, r: Poll<Option<Result<Bytes, Status>>>) -> bool
 where T: Encoder<Error = Status>, U: Stream<Item = Result<T::Item, Status>>
 {
@@ -175,12 +177,14 @@ impl<T> vstd::std_specs::convert::FromSpecImpl<T> for Poll<T> {
     open spec fn from_spec(v: T) -> Self { Poll::Ready(v) }
 }
 impl<T> From<T> for Poll<T> { fn from(t: T) -> (r: Poll<T>) { Poll::Ready(t) } }
-// A-status-11: Status::to_header_map: the header map it returns denotes this status (proved in unit `status`:
-// exactly one grpc-status, message, details, sanitized metadata); here: a ghost tag on the opaque map.
-pub uninterp spec fn status_of(h: HeaderMap) -> Option<Status>;
-impl Status {
-    #[verifier::external_body]
-    pub fn to_header_map(&self) -> (r: Result<HeaderMap, Status>) ensures r matches Ok(h) ==> status_of(h) == Some(*self) { unimplemented!() }
+// the trailers block of a finished server body: written(st) for the status the stream ended with
+pub open spec fn end_block(err: Option<Status>, h: HMap) -> bool {
+    exists|st: Status| #[trigger] written(st, Map::<Seq<char>, Seq<Seq<u8>>>::empty(), h) && (err matches Some(e) ==> st == e) && (err is None ==> st.code == Code::Ok)
+}
+pub open spec fn error_block<T, U>(pre: EncodedBytes<T, U>, post: EncodedBytes<T, U>, h: HMap) -> bool
+    where T: Encoder<Error = Status>, U: Stream<Item = Result<T::Item, Status>>
+{
+    exists|st: Status| #[trigger] written(st, Map::<Seq<char>, Seq<Seq<u8>>>::empty(), h) && enc_step(pre, post, Poll::Ready(Some(Err(st))))
 }
 pub struct EncodeBodyProj<'a, T, U: Stream> { pub inner: &'a mut EncodedBytes<T, U>, pub state: &'a mut EncodeState }
 impl<T, U: Stream> EncodeBody<T, U> {
@@ -195,8 +199,11 @@ impl<T, U: Stream> EncodeBody<T, U> {
 
 def build():
     u = Unit('encode', ['C01', 'C03', 'C06'])
-    u.prelude('base.rs', 'wire.rs', 'bytes.rs')
-    u.item('tonic/src/status.rs', 'enum', 'Code', derives='Clone, Copy, PartialEq, Eq')
+    common.http_base(u)
+    u.prelude('wire.rs')
+    common.metadata_core(u)
+    common.status_decls(u)
+    common.status_assumed(u)
     u.item('tonic/src/codec/compression.rs', 'enum', 'CompressionEncoding', derives='Clone, Copy, PartialEq, Eq')
     u.prelude('codec_specs.rs', 'codec.rs')
     u.const_guard('tonic/src/codec/mod.rs', 'HEADER_SIZE', 'const HEADER_SIZE: usize = std::mem::size_of::<u8>() + std::mem::size_of::<u32>();', 'pub const HEADER_SIZE: usize = 5;')
@@ -249,7 +256,7 @@ where
          attrs=['#[verifier::exec_allows_no_decreases_clause]', '#[verifier::loop_isolation(false)]'],
          sig_edits=[lambda t: t.sub_code('R9', r'Self::Item', 'Result<Bytes, Status>')],
          requires=['old(self).buf.reserve_bound@ < 0'],
-         body_start='        broadcast use lemma_take_all;',
+         body_start='        broadcast use lemma_take_all; reveal(enc_step);',
          hints=[('before', 'let buffer_settings = encoder.buffer_settings();',
                  'let ghost fut_src = *final(source.p); let ghost n0 = source.p.log@.len() as int; let ghost buf0 = buf@; let ghost enc0 = *compression_encoding; let ghost max0 = *max_message_size; proof { lemma_wire_empty::<T>(enc0, max0, source.p.log@.skip(n0)); }'),
                 ('before', 'match source.as_mut().poll_next(cx) {', 'let ghost log_before = source.p.log@;'),
@@ -275,9 +282,7 @@ where
              Clause('T1_client_never', 'old(self).role is Client ==> r is None && *final(self) == *old(self)', ['C03']),
              Clause('T2_at_most_once', 'old(self).role is Server && old(self).is_end_stream ==> r is None && *final(self) == *old(self)', ['C03']),
              Clause('T3_server_trailers_end_stream', 'old(self).role is Server && !old(self).is_end_stream ==> r is Some && final(self).is_end_stream && final(self).role is Server', ['C03']),
-             Clause('T4_trailers_carry_the_status', '''r matches Some(Ok(h)) ==> status_of(h) is Some
-                && (old(self).error matches Some(e) ==> status_of(h) == Some(e))
-                && (old(self).error is None ==> status_of(h)->Some_0.code == Code::Ok)''', ['C02', 'C03']),
+             Clause('T4_trailers_carry_the_status', 'r matches Some(Ok(h)) ==> end_block(old(self).error, h@)', ['C02', 'C03']),
          ])
 
     OI, FI = 'old(self).inner', 'final(self).inner'
@@ -288,6 +293,8 @@ where
     U: Stream<Item = Result<T::Item, Status>>,
 {''', close=True,
          sig_edits=[lambda t: t.sub_code('R9', r'Self::Data', 'Bytes'), lambda t: t.sub_code('R9', r'Self::Error', 'Status')],
+         body_edits=[lambda t: r20_let_intro(t, 'vtry!(status.to_header_map())', 'verif_h')],
+         hints=[('after', 'let verif_h = vtry!(status.to_header_map());', 'proof { assert(written(status, %s, verif_h@)); assert(error_block(old(self).inner, *self_proj.inner, verif_h@)); }' % common.EMPTY)],
          closures={0: dict(params='t: Result<HeaderMap, Status>', ret='(x: Result<Frame<Bytes>, Status>)',
                            ensures=['t matches Ok(h) ==> x == Ok::<Frame<Bytes>, Status>(Frame::Trailers(h))', 't matches Err(e) ==> x == Err::<Frame<Bytes>, Status>(e)'])},
          requires=['old(self).inner.buf.reserve_bound@ < 0'],
@@ -298,11 +305,7 @@ where
              Clause('W4_data_is_the_encoder_chunk', f'!old(self).state.is_end_stream ==> (r matches Poll::Ready(Some(Ok(Frame::Data(d)))) ==> enc_step({OI}, {FI}, Poll::Ready(Some(Ok(d)))) && final(self).state == old(self).state)', ['C01', 'C03', 'C06']),
              Clause('W5_pending', f'!old(self).state.is_end_stream && r is Pending ==> enc_step({OI}, {FI}, Poll::Pending) && final(self).state == old(self).state', ['C01', 'C03']),
              Clause('W6_server_status_becomes_the_trailers', f'''!old(self).state.is_end_stream && old(self).state.role is Server ==> (r matches Poll::Ready(Some(Ok(Frame::Trailers(h)))) ==>
-                status_of(h) is Some && (
-                    enc_step({OI}, {FI}, Poll::Ready(Some(Err(status_of(h)->Some_0))))
-                    || (enc_step({OI}, {FI}, Poll::Ready(None))
-                        && (old(self).state.error matches Some(e) ==> status_of(h) == Some(e))
-                        && (old(self).state.error is None ==> status_of(h)->Some_0.code == Code::Ok))))''', ['C02', 'C03', 'C06']),
+                error_block({OI}, {FI}, h@) || (enc_step({OI}, {FI}, Poll::Ready(None)) && end_block(old(self).state.error, h@)))''', ['C02', 'C03', 'C06']),
              Clause('W7_client_error_is_a_body_error', f'!old(self).state.is_end_stream && old(self).state.role is Client ==> (r matches Poll::Ready(Some(Err(st))) ==> enc_step({OI}, {FI}, Poll::Ready(Some(Err(st)))))', ['C03', 'C06']),
              Clause('W8_clean_end_only_for_clients', f'!old(self).state.is_end_stream ==> (r matches Poll::Ready(None) ==> old(self).state.role is Client && enc_step({OI}, {FI}, Poll::Ready(None)))', ['C03']),
              Clause('W9_role_never_changes', 'final(self).state.role == old(self).state.role', ['C03']),
